@@ -10,10 +10,15 @@
    checked boundary. The C07_host_* theorems below make the host a node kind and the call entry (api.Function.Call from a
    host function) an edge that carries its own checks, say which cause each check observes, and show that the entry
    check is the only check point on a recursion guest -> host -> guest.
+   WATCHER (coq/Engine/Watcher.v): the goroutine that turns "the context is done" into "the closed word is set" is part
+   of the state of an interleaving semantics over several concurrent calls on one module (C07_every_inflight_call_is_watched,
+   C07_shared_watcher_without_refcount_refuted), and C07_check_reads_entry_module says which module's word an in-guest
+   check must read when the executing function belongs to an imported module.
    HONEST BOUND: the bound on check-free executions is exponential in the stack ceiling, and it is tight
    (C07_tree_recursion_unbounded_witness): a guest doing bounded-depth tree recursion never polls the closed word. *)
 From Coq Require Import List Arith ZArith.
-From Verif Require Import Lib.GoInt Gen.GenC07Sys Engine.TermCheck Proofs.TermCheckP Engine.TermHost Proofs.TermHostP.
+From Verif Require Import Lib.GoInt Gen.GenC07Sys Engine.TermCheck Proofs.TermCheckP Engine.TermHost Proofs.TermHostP
+  Engine.Watcher Proofs.WatcherP.
 Import ListNotations.
 Close Scope Z_scope.
 Open Scope nat_scope.
@@ -201,3 +206,79 @@ Theorem C07_host_insertion_complete :
                   hcheck (view_of sit_outer_cancel) (hgraph_of entry_repaired (place comp_now p)) = true).
 Proof. exact host_insertion_complete_all. Qed.
 Print Assumptions C07_host_insertion_complete.
+
+(* ------------------------------------------------------------------ the watcher goroutine as part of the state *)
+
+(* For EVERY derivation structure of contexts E and EVERY schedule evs of call entries, call returns, contexts becoming done
+   (with everything derived from them), watcher steps and closes from other goroutines over any number of concurrent calls
+   on one module (shared, derived or distinct contexts), with one watcher per call as in the code now: at the end of the
+   schedule every call k that is in flight with context c
+   (1) has its own goroutine alive: listening to c, or it has fired, and then c is done and the closed word is set;
+   (2) if c is done, the goroutine's step is enabled and sets the closed word - with the context's code
+       (ExitCodeContextCanceled / ExitCodeDeadlineExceeded) when nothing closed the module before;
+   (3) if c is done, then under EVERY continuation evs' in which k does not return and the goroutine of k is scheduled at
+       least once, the module is closed (and FailIfClosed reports an exit code): the word is set while the call is in
+       flight, whatever the other calls do - return, start, share the context or not;
+   (4) is never "in flight, context done, word 0, no goroutine listening". *)
+Theorem C07_every_inflight_call_is_watched :
+  forall (E : cenv) (evs : list event) (k c : nat),
+    let s := run PerCall E evs init in
+    calls s k = CIn c ->
+    (watch s k = WListen c \/ (watch s k = WFired /\ word s <> 0%Z /\ cdone s c <> CtxLive)) /\
+    (cdone s c <> CtxLive ->
+       let s1 := step PerCall E s (EWatch k) in
+       word s1 <> 0%Z /\
+       (word s = 0%Z -> fail_if_closed (word s1) = Some (ctx_code (cdone s c)) /\ is_closed (word s1) = true)) /\
+    (cdone s c <> CtxLive ->
+       forall evs', ~ In (EReturn k) evs' -> In (EWatch k) evs' ->
+         let s' := run PerCall E evs' s in
+         word s' <> 0%Z /\ is_closed (word s') = true /\ exists code, fail_if_closed (word s') = Some code) /\
+    unwatched_call s k = false.
+Proof. exact every_inflight_call_is_watched. Qed.
+Print Assumptions C07_every_inflight_call_is_watched.
+
+(* The seeded ownership rule C07d (one watcher per Done channel, remembered by the module, stopped by the return of the call
+   that spawned it, no reference count). The schedule
+       call 0 enters with ctx 0; call 1 enters with ctx 0; call 0 returns; ctx 0 is cancelled
+   ends in a state in which call 1 is in flight, its context is done, the word is 0, NO goroutine of any call is listening,
+   and no sequence of watcher steps ever sets the word. The same with a context.WithValue child (same Done channel) and a
+   deadline. The trigger is specific: with the looping call started first, with a WithCancel child (its own channel) or
+   with distinct contexts nobody is stranded; and with the code as it is the goroutine of call 1 is listening at the end
+   of the same schedules and its step closes the module with the code of the cause. *)
+Theorem C07_shared_watcher_without_refcount_refuted :
+  (let s := run SharedNoRefcount env_std seeded_schedule init in
+   calls s 1 = CIn 0 /\ cdone s 0 = CtxCanceled /\ word s = 0%Z /\ slot s = None /\
+   (forall k, is_listening (watch s k) = false) /\
+   (forall ks, word (run SharedNoRefcount env_std (map EWatch ks) s) = 0%Z) /\
+   stranded SharedNoRefcount 2 seeded_schedule = [1%Z]) /\
+  (let s := run SharedNoRefcount env_std seeded_schedule_derived init in
+   calls s 1 = CIn 1 /\ cdone s 1 = CtxDeadline /\ word s = 0%Z /\
+   (forall k, is_listening (watch s k) = false) /\
+   (forall ks, word (run SharedNoRefcount env_std (map EWatch ks) s) = 0%Z)) /\
+  stranded SharedNoRefcount 2 control_schedule = [] /\
+  stranded SharedNoRefcount 2 [EEnter 0 0; EEnter 1 2; EReturn 0; EDone 0 CtxCanceled] = [] /\
+  stranded SharedNoRefcount 2 [EEnter 0 0; EEnter 1 3; EReturn 0; EDone 3 CtxCanceled] = [] /\
+  (let s := run PerCall env_std seeded_schedule init in
+   watch s 1 = WListen 0 /\ fail_if_closed (word (step PerCall env_std s (EWatch 1))) = Some ExitCodeContextCanceled) /\
+  (let s := run PerCall env_std seeded_schedule_derived init in
+   watch s 1 = WListen 1 /\ fail_if_closed (word (step PerCall env_std s (EWatch 1))) = Some ExitCodeDeadlineExceeded).
+Proof. exact shared_watcher_without_refcount_refuted. Qed.
+Print Assumptions C07_shared_watcher_without_refcount_refuted.
+
+(* Which module's closed word an in-guest check reads (the watcher closes the module the call was made on = the head of
+   the chain of modules of the functions on the call engine's stack). Reading the entry module (wazevo) or both (candidate
+   repair of the interpreter) observes the cause for every chain. Reading the module of the CALLING function (the
+   interpreter now) observes it iff that module is the entry module; for a loop in an imported module d call levels
+   below the import boundary, A.run -> B.f_d -> .. -> B.f_0, iff d = 0. A.run -> B.outer -> B.inner is not observed. *)
+Theorem C07_check_reads_entry_module :
+  (forall chain w, w <> 0%Z -> check_observes SelEntry (entry_closed chain w) chain = true) /\
+  (forall chain w, w <> 0%Z -> check_observes SelBoth (entry_closed chain w) chain = true) /\
+  (forall chain w, w <> 0%Z ->
+     check_observes SelCaller (entry_closed chain w) chain = (caller_mod chain =? entry_mod chain)) /\
+  (forall d w, w <> 0%Z ->
+     check_observes SelCaller (entry_closed (imported_chain d) w) (imported_chain d) = (d =? 0)) /\
+  check_observes SelCaller (entry_closed [0; 1; 1] (apply_cause 0%Z Cancelled)) [0; 1; 1] = false /\
+  check_observes SelEntry (entry_closed [0; 1; 1] (apply_cause 0%Z Cancelled)) [0; 1; 1] = true /\
+  check_observes SelBoth (entry_closed [0; 1; 1] (apply_cause 0%Z Cancelled)) [0; 1; 1] = true.
+Proof. exact check_module_selection. Qed.
+Print Assumptions C07_check_reads_entry_module.
